@@ -30,6 +30,9 @@ macro_rules! def_va {
 
 macro_rules! dep_warn {
     ($first: expr, $($arg:expr),*) => {{
+        #[cfg(kaj_rsass_verif)]
+        use rsass_verif_sync::Once;
+        #[cfg(not(kaj_rsass_verif))]
         use std::sync::Once;
         static WARN: Once = Once::new();
         WARN.call_once(|| {
@@ -37,6 +40,9 @@ macro_rules! dep_warn {
         });
     }};
     ($first: expr) => {{
+        #[cfg(kaj_rsass_verif)]
+        use rsass_verif_sync::Once;
+        #[cfg(not(kaj_rsass_verif))]
         use std::sync::Once;
         static WARN: Once = Once::new();
         WARN.call_once(|| eprintln!(concat!("DEPRECATION WARNING: ", $first)));
